@@ -223,3 +223,25 @@ package mail
 //@ func mail.Client.SendWithSMTPClient
 //@   requires[C20:wf] c != nil
 //@ at mail.Client.SendWithSMTPClient mail.Client.sendSingleMsg#1 after assert[C20:no-stale-error] result == nil ==> message.sendError == nil
+
+// ---------------------------------------------------------------------------
+// C05  Envelope addresses and command lines cannot be smuggled (mail.Client side)
+//
+//@ pred dsnok(c *mail.Client) = (c.dsnReturnType == "" || c.dsnReturnType == "HDRS" || c.dsnReturnType == "FULL") && (forall k :: 0 <= k && k < len(c.dsnRcptNotifyType) ==> argsafe(c.dsnRcptNotifyType[k]))
+//@ func mail.WithDSNMailReturnType$1
+//@   requires[C05:wf] c != nil
+//@   ensures[C05:dsn] r0 == nil ==> c.dsnReturnType == "HDRS" || c.dsnReturnType == "FULL"
+//@ func mail.WithHELO$1
+//@   requires[C05:wf] c != nil
+//@   ensures[C05:helo-name] r0 == nil ==> argsafe(c.helo)
+//@ func mail.Client.sendSingleMsg
+//@   requires[C05:hist] c != nil && client != nil && message != nil && client.didHello && dsnok(c) && argsafe(client.dsnmrtype) && argsafe(client.dsnrntype)
+//@   loop 1 invariant[C05:dsn] argsafe(client.dsnrntype)
+//@ func mail.Msg.GetRecipients
+//@   requires[C05:wf] m != nil
+//@   modifies[C05:frame] heap("none")
+//@   loop 1 invariant[C05:frame] kept("A.string") && freshslice(rcpts)
+//@   loop 2 invariant[C05:frame] kept("A.string") && freshslice(rcpts)
+//@ func mail.Msg.GetSender
+//@   requires[C05:wf] m != nil
+//@   modifies[C05:frame] heap("none")
